@@ -184,6 +184,42 @@ func init() {
 		for sc := 0; sc < 12; sc++ {
 			runTwoCalculators(c, sc)
 		}
+		propC12Retention(c) // token lists handed out earlier keep their content while the tokenizer goes on
+		// a rejected expression leaves nothing behind: no automatic variables, the same answers as a new calculator afterwards
+		for _, bad := range []string{"limit * (rate + ", "rate +", "f(rate", "limit ? rate", "rate 1e999"} {
+			for _, next := range []string{"rate IS NULL", "rate + 1", "limit", "Max(rate, 1)"} {
+				op := "afterreject " + strRunes(bad) + " " + strRunes(next)
+				c.record(op, true)
+				c.count("after-a-rejected-expression")
+				note := ""
+				st := safeCallT(5*time.Second, func() string {
+					calc := calculator.NewExpressionCalculator()
+					if err := calc.SetExpression(bad); err == nil {
+						return ""
+					}
+					if n := calc.DefaultVariables().Length(); n != 0 {
+						note = fmt.Sprintf("the rejected expression %q left %d automatic variable(s) behind", bad, n)
+						return ""
+					}
+					calc.SetAutoVariables(false)
+					fresh := calculator.NewExpressionCalculator()
+					fresh.SetAutoVariables(false)
+					ev := func(cc *calculator.ExpressionCalculator) string {
+						if err := cc.SetExpression(next); err != nil {
+							return "err " + errCode(err)
+						}
+						return outcome(cc.Evaluate())
+					}
+					if g, w := ev(calc), ev(fresh); g != w {
+						note = fmt.Sprintf("after the rejected %q (automatic variables then switched off) %q gives %s, on a new calculator %s", bad, next, g, w)
+					}
+					return ""
+				})
+				if st != "" || note != "" {
+					c.fail(Failure{Kind: "oracle", Op: op, Impl: st, Note: note})
+				}
+			}
+		}
 		propDefaultTableEdits(c) // a used calculator whose function table is edited = a new calculator with that table
 		propTplMaps(c)           // a used template whose variables are edited in place = a new template with those variables
 		exprPool := []string{"a << 1", "a <= 1", "a <> 1", "a >> 1", "a >= b", "a != b", "a + b * 2", "(a", "a +", "1 2", "'unterminated", "/* open", "x", "Max(a, b)", "a[0]", "NOT a", "", "a IS NULL", "\"a\" + 1", "a NOT IN b"}
